@@ -22,7 +22,8 @@ The full statement has four clauses.
   `C10_model_step_simple`; `C10_model_no_hidden_state` / `_versions_independent` hold by construction of the model
   (a `map`) and are tied to the code by the `predseq` stream.
 * the 'dbt' source of a time-series model inside CREATE TABLE / INSERT / UPDATE..FROM (`dbtSource`): `C10_partial_dbt`,
-  `C10_dbt_project_source`, `C10_dbt_plain`; `C10_witness_dbt` / `C10_dbt_full_false` (two open findings).
+  `C10_dbt_project_source`, `C10_dbt_plain` (any letter case of the qualifier); `C10_witness_dbt` / `C10_dbt_full_false`
+  (unqualified source: open, by design); `C10_regression_dbt` (qualifier compared as written, before 18f6c71).
 * T10.1 `C10_case_insensitive`, `C10_catalog_*`: equality of the constructor's result for names vs dicts, letter case
   (incl. the default namespace), `None` vs `[]`, list vs legacy dict.
 Regression examples (`C10_regression_*`) are about OLDER variants of the code (`resolveJoinOld`, a constructor that kept
@@ -177,14 +178,14 @@ theorem C10_regression_6 :
 def C10_dbt_full : Prop :=
   ∀ (c : Catalog) (i : Option Name) (parts : List Name), routeSimple c (dbtSource c i parts) = routeSimple c parts
 
-/-- a source qualified (as written) with a known database — an integration OR a project — is left alone, so it is
-fetched from where its name resolves to; in particular a view `proj.v` is never sent to the integration being
-written to -/
-theorem C10_partial_dbt (c : Catalog) (i : Option Name) (p : Name) (rest : List Name) (h : p ∈ c.databases) :
+/-- a source qualified with a known database — an integration OR a project, written in ANY letter case — is left
+alone, so it is fetched from where its name resolves to; in particular a view `proj.v` / `PROJ.v` is never sent to the
+integration being written to -/
+theorem C10_partial_dbt (c : Catalog) (i : Option Name) (p : Name) (rest : List Name) (h : lower p ∈ c.databases) :
     dbtSource c i (p :: rest) = p :: rest ∧ routeSimple c (dbtSource c i (p :: rest)) = routeSimple c (p :: rest) := by
   cases i <;> simp [dbtSource, h]
 
-theorem C10_dbt_project_source (c : Catalog) (i : Option Name) (p : Name) (rest : List Name) (h : p ∈ c.projects) :
+theorem C10_dbt_project_source (c : Catalog) (i : Option Name) (p : Name) (rest : List Name) (h : lower p ∈ c.projects) :
     dbtSource c i (p :: rest) = p :: rest :=
   (C10_partial_dbt c i p rest (by simp [Catalog.databases, h])).1
 
@@ -192,22 +193,26 @@ theorem C10_dbt_project_source (c : Catalog) (i : Option Name) (p : Name) (rest 
 theorem C10_dbt_plain (c : Catalog) (parts : List Name) : dbtSource c none parts = parts := by
   cases parts <;> simp [dbtSource]
 
-/-- the excluded classes are inhabited (both open known findings): the qualifier is compared as written, so `Int1.s`
-gets `int1` in front and is fetched as `Int1.s`; an unqualified source is fetched from the target integration instead
-of the default namespace (the documented dbt workaround) -/
+/-- the excluded class is inhabited (open finding, by design): an unqualified source is fetched from the target
+integration instead of the default namespace — the documented dbt workaround -/
 theorem C10_witness_dbt :
-    routeSimple cat2 (dbtSource cat2 (some n!"int1") [n!"Int1", n!"s"]) = .fetch n!"int1" [n!"Int1", n!"s"] ∧
-    routeSimple cat2 [n!"Int1", n!"s"] = .fetch n!"int1" [n!"s"] ∧
     routeSimple cat2 (dbtSource cat2 (some n!"int1") [n!"v1"]) = .fetch n!"int1" [n!"v1"] ∧
     routeSimple cat2 [n!"v1"] = .fetch n!"mindsdb" [n!"v1"] := by decide
 
 theorem C10_dbt_full_false : ¬ C10_dbt_full := fun h => by
   have := h cat2 (some n!"int1") [n!"v1"]
-  rw [C10_witness_dbt.2.2.1, C10_witness_dbt.2.2.2] at this
+  rw [C10_witness_dbt.1, C10_witness_dbt.2] at this
   exact absurd this (by decide)
 
-example : n!"mindsdb" ∈ cat2.projects ∧ dbtSource cat2 (some n!"int2") [n!"mindsdb", n!"view"] = [n!"mindsdb", n!"view"] := by
-  decide
+/-- regression (before 18f6c71 the qualifier was compared as written): `Int1.s` got `int1` in front and was fetched as
+`Int1.s`; now it is left alone and fetched as `s` -/
+theorem C10_regression_dbt :
+    routeSimple cat2 (dbtSourceOld cat2 (some n!"int1") [n!"Int1", n!"s"]) = .fetch n!"int1" [n!"Int1", n!"s"] ∧
+    routeSimple cat2 (dbtSource cat2 (some n!"int1") [n!"Int1", n!"s"]) = .fetch n!"int1" [n!"s"] ∧
+    routeSimple cat2 [n!"Int1", n!"s"] = .fetch n!"int1" [n!"s"] := by decide
+
+example : n!"mindsdb" ∈ cat2.projects ∧
+    dbtSource cat2 (some n!"int2") [n!"MindsDB", n!"view"] = [n!"MindsDB", n!"view"] := by decide
 
 /-! ## T10.3 -/
 
